@@ -829,6 +829,24 @@ class Twin:
             proj = project_plan(plan, p)
         except Exception as e:  # noqa
             exc = e
+        if plan is not None and op.get("used_before"):
+            # a plan object is a value: it has been executed before, on other labware and another worklist
+            try:
+                scratch = [self._make_lw(spec) for spec in self.prog["lw"]]
+                swl = type(self.wl)(max_volume=self.wl.max_volume, auto_split=self.wl.auto_split)
+                skw = {}
+                if dest is not None:
+                    skw["destination_plate"] = scratch[op["dest"]]
+                    skw["v_destination"] = vol_float(op["v_dest"], self.unit)
+                plan.to_worklist(worklist=swl, stock=scratch[op["stock"]], stock_column=op.get("stock_column", 0),
+                                 diluent=scratch[op["diluent"]], diluent_column=op.get("diluent_column", 0),
+                                 dilution_plate=scratch[op["plate"]], **skw)
+            except Exception:  # noqa
+                pass
+            try:
+                proj = project_plan(plan, p)
+            except Exception as e:  # noqa
+                exc = e
         if plan is not None:
             undo = self._observe_worklist(events)
             try:
